@@ -88,7 +88,7 @@ def check_event_uniqueness(P, r6):
         r6.bad(V(r6.id, "<anchor>", "missing:create_event_contexts", "anchor not found"))
     else:
         f = cec[0]
-        scope = [f] + [P.fns[k] for k in P.fns if k.startswith(f.id + "::{closure")]
+        scope = [f] + [P.fns[k] for k in P.family(f.id) if "::{closure" in k]
         by_name = False
         by_fn = False
         for g in scope:
